@@ -253,11 +253,11 @@ Definition m_listop (st : mst) (name : bytes) (o : lop) : res (mst * option N) :
   | Ok (st1, rn, g) =>
       match g with
       | GConfig (CList w l) =>
-          (* an untracked list in config is the very list object held by _defaults (or one nobody
-             tracks): mutating it is outside the by-value model *)
-          if negb w then Oos else
+          (* an untracked list (w = false) is a plain Python list: the operation just happens.
+             (Plain lists that are the very object held by _defaults never get here: the places
+             that would store one yield Oos, see setup_own / conf_changed_item.) *)
           if negb on_modify_before_op then Oos else
-          do st2 <- (if is_wrapped o then mark_unsaved st1 rn else Ok st1);
+          do st2 <- (if w && is_wrapped o then mark_unsaved st1 rn else Ok st1);
           match py_list_op o l with
           | inl l' => Ok (with_config st2 (dset rn (CList w l') (m_config st2)), None)
           | inr k => Ok (st2, Some k)
@@ -383,37 +383,38 @@ Definition pyval_eq_default_list (v : pyval) : bool :=
 
 Definition is_plain_atom_list (v : pyval) : bool := true.
 
-Definition setup_row (store : list (bytes * list bytes)) (st : mst) (row : bytes * bytes) : res mst :=
-  let '(name, value) := row in
-  if beqb name (bs "HiddenServiceOptions") then Oos else
-  do st1 <-
-    (if suffixb PortLines_sfx name then
-       let base := drop_last 5 name in
-       let rn := find_real_name st base in
-       match lookup_type (bs "String") with
-       | None => Oos
-       | Some sty =>
-           let stp := {| m_parsers := dset rn sty (m_parsers st); m_listp := m_listp st ++ [rn];
-                         m_defaults := m_defaults st; m_config := m_config st; m_unsaved := m_unsaved st |} in
-           let v := getconf_value (store_get store base) in
-           do initial <-
-             (if pyval_is_str v DEFAULT_VALUE || pyval_is_str v auto_str then
-                match dget base (m_defaults stp) with
-                | Some (DStr s) => Ok (map (fun c => AStr [c]) s)          (* list('9050') *)
-                | Some (DList l) => Ok (map AStr l)
-                | None =>
-                    match getconf_value (store_get store (bs "__" ++ base)) with
-                    | PAtom (AStr s) => Ok (match s with [] => [] | _ => [AStr s] end)
-                    | _ => Oos
-                    end
-                end
-              else match v with
-                   | PAtom a => Ok [a]
-                   | PList _ => Oos              (* a list inside the list: outside the value universe *)
-                   end);
-           Ok (set_config stp rn (CList true initial))
-       end
-     else Ok st);
+(* the port list a row "<X>PortLines" announces *)
+Definition setup_ports (store : list (bytes * list bytes)) (st : mst) (name : bytes) : res mst :=
+  if suffixb PortLines_sfx name then
+    let base := drop_last 5 name in
+    let rn := find_real_name st base in
+    match lookup_type (bs "String") with
+    | None => Oos
+    | Some sty =>
+        let stp := {| m_parsers := dset rn sty (m_parsers st); m_listp := m_listp st ++ [rn];
+                      m_defaults := m_defaults st; m_config := m_config st; m_unsaved := m_unsaved st |} in
+        let v := getconf_value (store_get store base) in
+        do initial <-
+          (if pyval_is_str v DEFAULT_VALUE || pyval_is_str v auto_str then
+             match dget base (m_defaults stp) with
+             | Some (DStr s) => Ok (map (fun c => AStr [c]) s)          (* list('9050') *)
+             | Some (DList l) => Ok (map AStr l)
+             | None =>
+                 match getconf_value (store_get store (bs "__" ++ base)) with
+                 | PAtom (AStr s) => Ok (match s with [] => [] | _ => [AStr s] end)
+                 | _ => Oos
+                 end
+             end
+           else match v with
+                | PAtom a => Ok [a]
+                | PList _ => Oos              (* a list inside the list: outside the value universe *)
+                end);
+        Ok (set_config stp rn (CList true initial))
+    end
+  else Ok st.
+
+(* the row's own option *)
+Definition setup_own (store : list (bytes * list bytes)) (st1 : mst) (name value : bytes) : res mst :=
   if mem_bytes value skip_types then Ok st1 else
   match lookup_type (plus_to_underscore value) with
   | None => Exc E_Runtime
@@ -443,12 +444,18 @@ Definition setup_row (store : list (bytes * list bytes)) (st : mst) (row : bytes
           (if pyval_is_str v [] || pyval_is_str v DEFAULT_VALUE then
              match dget rn (m_defaults st2) with
              | Some (DStr s) => parse pk (PAtom (AStr s))
-             | Some (DList dl) => parse pk (PList (map AStr dl))
+             | Some (DList dl) => Oos        (* parse(the list object of _defaults): shared, not modelled *)
              | None => parse pk (PAtom (AStr DEFAULT_VALUE))
              end
            else parse pk v);
         Ok (set_config st2 rn (cval_of_pyval false parsed))
   end.
+
+Definition setup_row (store : list (bytes * list bytes)) (st : mst) (row : bytes * bytes) : res mst :=
+  let '(name, value) := row in
+  if beqb name (bs "HiddenServiceOptions") then Oos else
+  do st1 <- setup_ports store st name;
+  setup_own store st1 name value.
 
 Fixpoint setup_rows (store : list (bytes * list bytes)) (st : mst) (rows : list (bytes * bytes)) : res mst :=
   match rows with
@@ -547,7 +554,7 @@ Definition conf_changed_item (st : mst) (kv : bytes * kwval) : res mst :=
           do parsed <- parse pk v; Ok (cval_of_pyval false parsed)
         else match dget real_name (m_defaults st) with
              | Some (DStr s) => do parsed <- parse pk (PAtom (AStr s)); Ok (cval_of_pyval false parsed)
-             | Some (DList dl) => do parsed <- parse pk (PList (map AStr dl)); Ok (cval_of_pyval false parsed)
+             | Some (DList dl) => Oos       (* the list object of _defaults itself: shared, not modelled *)
              | None => Ok (cval_of_pyval false v)
              end in
       match r with
@@ -569,38 +576,66 @@ Definition m_conf_changed (st : mst) (items : list (bytes * option bytes)) : res
   conf_changed_items st (parse_keywords_single (event_lines items)).
 
 (* ---- socks_endpoint(reactor) ---- *)
+(* line.split() on a text whose only white space is the space character *)
+Definition words (line : bytes) : list bytes :=
+  filter (fun t => match t with [] => false | _ => true end) (split_on SP line).
+
+Inductive line_res := LEndpoint (e : sockres) | LSkip | LRaise (k : N) | LOos.
+
+(* one iteration of _first_usable_socks_endpoint: the "0" test, then _endpoint_from_socksport_line *)
+Definition socks_line (line : bytes) : line_res :=
+  if existsb (fun c => is_space c && negb (Ascii.eqb c SP)) line then LOos else
+  match words line with
+  | [] => LRaise E_Index                              (* line.split()[0] *)
+  | tok :: _ =>
+      if beqb tok [ch 48] then LSkip else
+      if prefixb (bs "unix:") line then LEndpoint (SockUnix (skipn 5 tok)) else
+      let cfg := if memb SP line then tok else line in
+      if memb COLON cfg then
+        match split_on COLON cfg with
+        | h :: rest =>
+            match str_int (join [COLON] rest) with
+            | Ok (Zneg _) | Oos => LOos
+            | Ok p => LEndpoint (SockTcp h (Z.to_N p))
+            | Exc k => if k =? E_Value then LSkip else LRaise k
+            end
+        | [] => LOos
+        end
+      else match str_int cfg with
+           | Ok (Zneg _) | Oos => LOos
+           | Ok p => LEndpoint (SockTcp (bs "127.0.0.1") (Z.to_N p))
+           | Exc k => if k =? E_Value then LSkip else LRaise k
+           end
+  end.
+
+Fixpoint socks_lines (lines : list atom) : option sockres :=
+  match lines with
+  | [] => Some (SockExc E_Runtime)                    (* No usable SOCKS ports configured *)
+  | AStr line :: rest =>
+      match socks_line line with
+      | LEndpoint e => Some e
+      | LSkip => socks_lines rest
+      | LRaise k => Some (SockExc k)
+      | LOos => None
+      end
+  | _ :: _ => None
+  end.
+
 Definition m_socks (st : mst) : option (mst * sockres) :=
   match m_getattr st (bs "SocksPort") with
   | Oos => None
   | Exc k => Some (st, SockExc k)
   | Ok (st1, _, g) =>
       match g with
-      | GConfig (CList _ []) => Some (st1, SockExc E_Runtime)
-      | GConfig (CList _ (AStr line :: _)) =>
-          if prefixb (bs "unix:") line then Some (st1, SockUnix (skipn 5 line))
-          else
-            (* ' ' in line -> line.split()[0]; then host:port or port *)
-            if existsb (fun c => is_space c && negb (Ascii.eqb c SP)) line then None else
-            let tok := if memb SP line
-                       then match filter (fun t => match t with [] => false | _ => true end) (split_on SP line) with
-                            | t :: _ => t | [] => [] end
-                       else line in
-            if memb COLON tok then
-              match split_on COLON tok with
-              | h :: rest =>
-                  match str_int (join [COLON] rest) with
-                  | Ok (Zneg _) | Oos => None
-                  | Ok p => Some (st1, SockTcp h (Z.to_N p))
-                  | Exc k => Some (st1, SockExc k)
-                  end
-              | [] => None
-              end
-            else match str_int tok with
-                 | Ok (Zneg _) | Oos => None
-                 | Ok p => Some (st1, SockTcp (bs "127.0.0.1") (Z.to_N p))
-                 | Exc k => Some (st1, SockExc k)
-                 end
-      | _ => None
+      | GConfig (CList _ []) => Some (st1, SockExc E_Runtime)     (* No SOCKS ports configured *)
+      | GConfig (CList _ lines) => option_map (fun r => (st1, r)) (socks_lines lines)
+      | GDefault (DList []) => Some (st1, SockExc E_Runtime)
+      | GDefault (DList lines) => option_map (fun r => (st1, r)) (socks_lines (map AStr lines))
+      (* a str: len() counts and the loop visits its characters *)
+      | GConfig (CAtom (AStr [])) | GDefault (DStr []) => Some (st1, SockExc E_Runtime)
+      | GConfig (CAtom (AStr s)) | GDefault (DStr s) =>
+          option_map (fun r => (st1, r)) (socks_lines (map (fun c => AStr [c]) s))
+      | GConfig (CAtom _) => Some (st1, SockExc E_Type)          (* len() of a number *)
       end
   end.
 
